@@ -322,7 +322,8 @@ def _reductions(model):
         m = (root, ctcs[:i] + ctcs[i + 1:])
         if emit(m):
             yield m
-        for sub in subtrees(t):
+        fnames = [f[0] for f in features(model)][-2:]
+        for sub in tree_reductions(t, tuple(fnames)):
             m = (root, ctcs[:i] + ((n, sub),) + ctcs[i + 1:])
             if emit(m):
                 yield m
